@@ -9,6 +9,7 @@ From Coq Require Import String.
 From Coq Require Import List Ascii ZArith Bool Lia.
 From CGV Require Import Base.PyBase Base.PyVal Base.NxGraph Base.PyGen Gen.ReaderGen Dialect.DialectImpl
      Reader.ReaderImpl Reader.Grammar Reader.ReaderLemmas Reader.Lin Reader.GraphLemmas Reader.ReaderSim Reader.ReaderMult.
+From CGV Require Export Reader.UnitsDefs.
 Import ListNotations.
 Open Scope Z_scope.
 
@@ -268,7 +269,6 @@ Proof.
 Qed.
 
 (** ** the machine on the longhand copies *)
-Record bnode := { bn_name : pystr; bn_mult : option (list nat); bn_bond : option sym }.
 Definition bnode_toks (b : bnode) : list tok := TNode (bn_name b) (mult_val (bn_mult b)) :: osym_tok (bn_bond b).
 Definition body_toks (body : list bnode) : list tok := flat_map bnode_toks body.
 (** the recipe entries the reader records for the body, [inc] = order of the bond reaching the first node *)
@@ -282,18 +282,11 @@ Fixpoint body_entries (fo : float_oracle) (inc : Z) (body : list bnode) : option
       end
   end.
 (** side conditions of body nodes: names and counts *)
-Definition sn_okb (m : option (list nat)) (b : option sym) : bool :=
-  match m with Some ds => digits_ok ds && (1 <=? digits_nat ds)%nat | None => true end.
 Lemma sn_okb_ok m b : sn_okb m b = true -> sn_ok m b.
 Proof.
   unfold sn_okb, sn_ok. destruct m; [|trivial]. intros H. apply andb_prop in H as [H1 H2].
   apply Nat.leb_le in H2. split; assumption.
 Qed.
-Fixpoint body_ok (fo : float_oracle) (inc : Z) (body : list bnode) : bool :=
-  match body with
-  | [] => true
-  | b :: r => name_ok fo (bn_name b) && sn_okb (bn_mult b) (bn_bond b) && body_ok fo (oord (bn_bond b)) r
-  end.
 
 Lemma eb_nodes_copies : forall n a o g cur p, ahas (S "node_for_adding") a = false ->
   eb_nodes n a (Some o) g cur (Some p) = Ok (m_copies n a g cur (Some p) o).
@@ -337,8 +330,6 @@ Proof.
 Qed.
 
 (** ** units *)
-Record unit_t := { u_name : pystr; u_mult : option (list nat); u_bond : option sym; u_body : list bnode;
-                   u_ms : option sym; u_count : list nat; u_after : option sym }.
 Definition copy_toks (u : unit_t) : list tok :=
   osym_tok (u_ms u) ++ TNode (u_name u) 1 :: osym_tok (u_bond u) ++ TOpen :: body_toks (u_body u) ++ [TClose].
 
